@@ -4,6 +4,7 @@ through the public ``worker=`` argument, and compute what an independent simulat
 The model family is x' = v_in - v_out with v_out = k*x and v_in = kineff/g, where
   plain   : kineff = k_in
   ia      : kineff = k_in + q,  q = 2*x(0) a PARAMETER defined by an InitialAssignment over the initial value
+            (a scan table may name q itself: the row's value then replaces the assignment)
   derived : kineff = kd,        kd = 2*k_in a derived parameter
 g (normally 1) and a (normally 0) are failure switches: a row with g = 0 makes the rate law raise
 ZeroDivisionError; for a row with a != 0 the worker wrapper hands the library an integrator that reports failure.
@@ -20,7 +21,7 @@ import os
 import time
 from functools import partial
 
-COLMAP = {"k": "k", "i": "k_in", "x": "x"}
+COLMAP = {"k": "k", "i": "k_in", "x": "x", "q": "q"}   # "q": the assignment-defined parameter itself (variant ia)
 ORIGINAL = {"k": 1.0, "k_in": 2.0, "x": 1.0, "g": 1.0, "a": 0.0}
 LABELS = [30, 10, 20, 50, 40]                 # non-monotonic row labels (index of the scan table)
 TIME_POINTS = [0.0, 0.5, 1.0, 2.0]
@@ -74,8 +75,11 @@ def build_model(variant: str):
     return m
 
 
-def kineff(variant: str, k_in: float, x0: float) -> float:
-    return k_in + 2.0 * x0 if variant == "ia" else 2.0 * k_in if variant == "derived" else k_in
+def kineff(variant: str, k_in: float, x0: float, q: float | None = None) -> float:
+    """q: value a scan row gave the assignment-defined parameter (None: the assignment 2*x(0) is in force)."""
+    if variant == "ia":
+        return k_in + (2.0 * x0 if q is None else q)
+    return 2.0 * k_in if variant == "derived" else k_in
 
 
 # ---- the failing integrator (public integrator= extension point) --------------------------------
@@ -290,18 +294,18 @@ def closed_form(sc: dict, i: int, times: list[float], inner: float | None = None
     vals = {**ORIGINAL, **row_values(sc, i)}
     if inner is not None:
         vals["k_in"] = inner
-    k, x0, variant = vals["k"], vals["x"], cfg["variant"]
+    k, x0, variant, q = vals["k"], vals["x"], cfg["variant"], vals.get("q")
     if cfg["kind"] in ("steady_state", "mc.steady_state", "mc.scan_steady_state"):
-        ke = kineff(variant, vals["k_in"], x0)
+        ke = kineff(variant, vals["k_in"], x0, q)
         return {"x": [ke / k], "v_in": [ke], "v_out": [ke]}
     segs = []
     if cfg["kind"] in ("protocol", "protocol_time_course"):
         t = 0.0
         for d, kin in PROTOCOL:
-            segs.append((t, t + d, kineff(variant, kin, x0)))
+            segs.append((t, t + d, kineff(variant, kin, x0, q)))
             t += d
     else:
-        segs.append((0.0, math.inf, kineff(variant, vals["k_in"], x0)))
+        segs.append((0.0, math.inf, kineff(variant, vals["k_in"], x0, q)))
     xs, vin, vout = [], [], []
     for tt in times:
         x, last = x0, None
